@@ -45,7 +45,9 @@ func verifK_Sender() {
 		err = snd.send(msg)
 		done = true
 	})
+	updDone := false
 	verifGo("updater", func() {
+		defer func() { updDone = true }()
 		for i := 0; i < nupd; i++ {
 			add := verifU32("credit")
 			// ghost bookkeeping happens before the update becomes visible
@@ -61,6 +63,8 @@ func verifK_Sender() {
 		})
 	}
 	verifDrain()
+	// delivering a window update is done on the receive loop's stack: it must never block
+	verifAssert(updDone, "C03+C05.k-window-update-never-blocks")
 	if !done {
 		// terminal state: nobody else can move. A parked sender must be out of credit.
 		verifCover("k-sender-parked")
@@ -221,10 +225,15 @@ func verifK_StreamIDs() {
 	c := vNewCliChannel(car, 0, false)
 	n := verifParam("starters")
 	ids := make([]int64, n)
+	ctx0, cancel0 := context.WithCancel(context.Background())
 	for i := 0; i < n; i++ {
 		i := i
 		verifGo("starter", func() {
-			st, err := c.newStream(context.Background(), true, true, "svc/m")
+			ctx := context.Background()
+			if i == 0 {
+				ctx = ctx0 // this caller's context is cancelled at some point by another goroutine
+			}
+			st, err := c.newStream(ctx, true, true, "svc/m")
 			if err != nil {
 				return
 			}
@@ -232,6 +241,7 @@ func verifK_StreamIDs() {
 			_ = st.SendMsg(&wrapperspb.BytesValue{Value: []byte{byte(i)}})
 		})
 	}
+	verifGo("canceller", func() { cancel0() })
 	verifDrain()
 	last := int64(0)
 	seenNew := map[int64]bool{}
